@@ -251,18 +251,23 @@ CHECKS = {
         "level_text": ("Generated-input search over near-valid MRO texts: every *.mro of the repository and harness-owned seeds, tokenised and edited with 0-3 hostile "
                        "substitutions (64-bit boundary integers, out-of-range floats, every escape form, empty strings, keywords as identifiers, invalid UTF-8, "
                        "truncation, nesting to 10^4, 32767+ array dimensions), plus token soups and raw bytes, fed to ParseSourceBytes, UncheckedParse, ParseValExp, "
-                       "FormatSrcBytes under recover. Oracle: no panic, error text carries file:line, time and allocation proportional to input. Exploration."),
-        "level_note": "A Go stack overflow or an out-of-memory kill cannot be recovered and would surface as infrastructure failure (exit 2), not as a violation; time/alloc limits are two orders of magnitude above normal and confirmed three times before they count.",
+                       "FormatSrcBytes under recover. Sets of 2-6 files on disk with generated @include edges (chains, diamonds, repeated and self includes, cycles entered from several "
+                       "places, missing files, sub-directories), compiled from every file as the root. Oracle: no panic, no runaway recursion or allocation, error text carries file:line, "
+                       "time and allocation proportional to input. Exploration."),
+        "level_note": "A Go stack overflow ends the test process; the include-graph unit leaves the case in flight behind so that the driver reports it as a violation with the files as replay; elsewhere it would surface as infrastructure failure (exit 2); time/alloc limits are two orders of magnitude above normal and confirmed three times before they count.",
         "rule": ("rapid: seed program x 0-3 token-level edits (replace/insert hostile token, same-class replacement, delete, duplicate, swap, deep nesting, huge type dimensions, "
                  "truncation) and token soups / raw bytes. Non-trivial: >= 5 tokens and (>= 1 edit or soup). Distinct by hash of the input bytes. Classes: compiled / "
-                 "parsed-compile-error / value-expression / syntax-error."),
+                 "parsed-compile-error / value-expression / syntax-error. Include graphs: file count x edge shape {random, DAG, cycle entered from outside} x declaration kind per file; "
+                 "non-trivial: a cycle, a repeated include, a self include or a missing file."),
         "assumptions": ["position = error text contains ':<line>' or 'line <n>'"],
         "units": [
             U("props/lang", "TestC08NearValid", (4000, 10), (60000, 14)),
             U("props/lang", "TestC08Bytes", (20000, 2), (300000, 2)),
+            U("props/lang", "TestC08IncludeGraphs", (4000, 2), (100000, 4)),
         ],
         "fuzz": [{"pkg": "props/lang", "target": "FuzzC08", "thorough": {"seconds": 600}}],
-        "floors": {"quick": {"compiled": 1000, "parsed-compile-error": 1000, "syntax-error": 5000, "edit:replace-same-class": 2000}},
+        "floors": {"quick": {"compiled": 1000, "parsed-compile-error": 1000, "syntax-error": 5000, "edit:replace-same-class": 2000,
+                             "include-cycle": 2000, "repeated-include": 1000, "missing-include": 500, "self-include": 500}},
     },
     "C18": {
         "level": "exploration",
